@@ -185,6 +185,15 @@ public:
    ///    0.2, 10.04.2016
    virtual bool hasValue() const = 0;
 
+   /// Returns if the argument was used, i.e. if a value was assigned through
+   /// it (command line, argument file or environment variable).<br>
+   /// Unlike hasValue(), which for some destination types tells if the
+   /// destination variable contains a value, this is not affected by the
+   /// initial contents of the destination variable.
+   /// @return
+   ///    \c true if assignValue() was executed successfully at least once.
+   bool wasUsed() const;
+
    /// Prints the current value of the destination variable.<br>
    /// Does not check any flags, if a value has been set etc., simply prints the
    /// value.
@@ -767,6 +776,8 @@ protected:
    /// Set when the argument supports logic inversion by a preceeding
    /// exclamation makr.
    bool                            mAllowsInverting = false;
+   /// Set when a value was assigned through this argument.
+   bool                            mWasUsed = false;
    /// The key of the argument that replaced this argument.
    std::string                     mReplacedBy;
    /// When set: the unit string to display in the usage.
@@ -896,6 +907,12 @@ inline bool TypedArgBase::isMandatory() const
 {
    return mIsMandatory;
 } // TypedArgBase::isMandatory
+
+
+inline bool TypedArgBase::wasUsed() const
+{
+   return mWasUsed;
+} // TypedArgBase::wasUsed
 
 
 inline bool TypedArgBase::printDefault() const
